@@ -37,6 +37,12 @@ export function gen(rng, params, mode) {
       else if (t === 1) rt = [A("object"), [], [[[A("typeof"), "string"], [A("desc"), doc(), rt]]]];
       else rt = [A("object"), [["a", [A("desc"), doc(), rt]], ["b", rng.chance(1, 2) ? [A("opt"), [A("desc"), doc(), [A("typeof"), "string"]]] : [A("typeof"), "string"]]], []];
     }
+    // type names are arbitrary identifiers, including names of Object.prototype members
+    if (names.length && rng.chance(1, 8)) {
+      const from = rng.pick(names), to = rng.pick(["toString", "constructor", "hasOwnProperty", "valueOf"]);
+      const ren = (x) => { if (!Array.isArray(x)) return; if (head(x) === "ref" && x[1] === from) x[1] = to; x.forEach(ren); };
+      env.forEach((e) => { if (e[0] === from) e[0] = to; ren(e[1]); }); ren(rt);
+    }
     if (unsupported(rt) || unsupported(env)) continue;
     const r = () => rng.below(10);
     const vals = Array.from({ length: Number(params[0] || 10) }, () => { const k = r(); return k < 6 ? member(rng, rt, env, 2) : k < 9 ? mutate(rng, member(rng, rt, env, 2), 3) : randomValue(rng, 2); });
